@@ -144,4 +144,35 @@ theorem toU64_toNat (a : BitVec 64) : (toU64__eE a).toNat = a.toNat % P := by
   unfold P
   split <;> omega
 
+/-! ### inc / dec (plain C++ branches: proved per branch on `Nat`, independent of the order and form of the tests) -/
+
+/-- conditions and word arithmetic of branching 64-bit C++ code moved to `Nat` (after the `if`s were split) -/
+macro "word_nat" : tactic => `(tactic| (
+  simp only [decide_eq_true_eq, decide_eq_false_iff_not, beq_iff_eq, bne_iff_ne, ne_eq, Bool.not_eq_true,
+    beq_eq_false_iff_ne, gt_iff_lt, ge_iff_le, BitVec.lt_def, BitVec.le_def, BitVec.toNat_eq,
+    BitVec.toNat_add, BitVec.toNat_sub, BitVec.toNat_ofNat, Nat.reducePow, Nat.reduceMod, P] at * <;> omega))
+
+theorem inc_mod (a : BitVec 64) : (inc a).toNat % P = (a.toNat + 1) % P := by
+  have h4 : (add__rEE a 1#64).toNat % P = (a.toNat + 1) % P := by
+    have h : add__rEE a 1#64 = add__eEE a 1#64 := rfl
+    rw [h, add_mod]; rfl
+  have h5 : (add__rEE 1#64 a).toNat % P = (a.toNat + 1) % P := by
+    have h : add__rEE 1#64 a = add__eEE 1#64 a := rfl
+    rw [h, add_mod, Nat.add_comm]; rfl
+  have ha := a.isLt
+  unfold inc
+  try simp only [one__r, c_ONE]
+  repeat' split
+  all_goals first
+    | exact h4
+    | exact h5
+    | word_nat
+
+theorem dec_mod (a : BitVec 64) : (dec a).toNat % P = (a.toNat % P + (P - 1)) % P := by
+  have ha := a.isLt
+  unfold dec
+  try simp only []
+  repeat' split
+  all_goals word_nat
+
 end GoldilocksVerif
